@@ -219,24 +219,27 @@ static int ABITS = 4, ALEN = 4, BLEN = 7, BSYM = 4, ALL3 = 0;
 static uint64_t n3a, n3b, n3c;     /* item counts of the three sub-ranges */
 static uint64_t ipow(uint64_t b, int e) { uint64_t r = 1; while (e-- > 0) r *= b; return r; }
 
-/* sub-range a: item = (length, first symbol); all strings, all splits */
+/* sub-range a: item = (length, first symbol [, second symbol]); all strings, all splits */
 static void item_bytes_a(uint64_t idx)
 {
 	const u8 *al = ABITS == 5 ? ALPHA32 : ALPHA16; int A = 1 << ABITS;
-	int len; uint64_t first;
-	if (idx == 0) { len = 0; first = 0; } else { len = 1 + (idx - 1) / A; first = (idx - 1) % A; }
+	int len, fixed; uint64_t first = 0, second = 0;
+	if (idx == 0) { len = 0; fixed = 0; }
+	else if (idx <= (uint64_t)A) { len = 1; fixed = 1; first = idx - 1; }
+	else { uint64_t k = idx - 1 - A; len = 2 + (int)(k / ((uint64_t)A * A)); k %= (uint64_t)A * A; first = k / A; second = k % A; fixed = 2; }
 	memset(rep, 0, sizeof rep);
-	u8 b[8]; uint64_t total = len ? ipow(A, len - 1) : 1, nstr = 0;
+	u8 b[8]; uint64_t total = ipow(A, len - fixed), nstr = 0;
 	for (uint64_t c = 0; c < total; c++) {
 		uint64_t x = c;
-		if (len) b[0] = al[first];
-		for (int i = 1; i < len; i++) { b[i] = al[x % A]; x /= A; }
+		if (fixed >= 1) b[0] = al[first];
+		if (fixed >= 2) b[1] = al[second];
+		for (int i = fixed; i < len; i++) { b[i] = al[x % A]; x /= A; }
 		for (unsigned cuts = 0; cuts < (len > 1 ? 1u << (len - 1) : 1u); cuts++) run_all_decoders(b, len, cuts);
 		nstr++;
 	}
 	MC_COUNTN("arbitrary_strings", nstr); flush_counts();
 	mc_nontrivial(idx + 1);
-	mc_observe("all %llu byte strings of length %d starting with %02x over the %d-value alphabet, every split, %d decoders", (unsigned long long)total, len, len ? al[first] : 0, A, ND);
+	mc_observe("all %llu byte strings of length %d starting with %02x %02x over the %d-value alphabet, every split, %d decoders", (unsigned long long)total, len, len ? al[first] : 0, len > 1 ? al[second] : 0, A, ND);
 }
 /* sub-range b: longer strings over a tiny alphabet (tag continuation bytes), at most two cuts */
 static void item_bytes_b(uint64_t idx)
@@ -253,7 +256,7 @@ static void item_bytes_b(uint64_t idx)
 		nstr++;
 	}
 	MC_COUNTN("arbitrary_strings", nstr); flush_counts();
-	mc_nontrivial(0x1000000 + idx);
+	mc_nontrivial(0x10000000 + idx);
 	mc_observe("all %llu byte strings of length %d starting %02x %02x over {00 10 80 8f 01}[0..%d), every split with <= 2 cuts", (unsigned long long)total, len, b[0], b[1], BSYM);
 }
 /* sub-range c: every 2-byte string (all 2^16) and each extended by every byte of the 32-value alphabet */
@@ -264,7 +267,7 @@ static void item_bytes_c(uint64_t idx)
 	for (unsigned cuts = 0; cuts < 2; cuts++) run_all_decoders(b, 2, cuts);
 	for (int c = 0; c < 32; c++) { b[2] = ALPHA32[c]; for (unsigned cuts = 0; cuts < 4; cuts++) run_all_decoders(b, 3, cuts); }
 	MC_COUNTN("arbitrary_strings", 33); flush_counts();
-	mc_nontrivial(0x2000000 + idx);
+	mc_nontrivial(0x20000000 + idx);
 	mc_observe("byte string %02x %02x and its 32 extensions by one byte of the 32-value alphabet, every split", b[0], b[1]);
 }
 
@@ -601,7 +604,7 @@ int main(int argc, char **argv)
 	switch (PART) {
 	case 1: n = NTAGS * 3 + 1 + N_SEQ; break;
 	case 2: n = 1ULL << (SWEEPBITS - 16); break;
-	case 3: n3a = 1 + (uint64_t)ALEN * (1 << ABITS); n3b = BLEN > ALEN ? (uint64_t)(BLEN - ALEN) * BSYM * BSYM : 0; n3c = ALL3 ? 65536 : 0; n = n3a + n3b + n3c; break;
+	case 3: n3a = 1 + (1 << ABITS) + (ALEN > 1 ? (uint64_t)(ALEN - 1) << (2 * ABITS) : 0); n3b = BLEN > ALEN ? (uint64_t)(BLEN - ALEN) * BSYM * BSYM : 0; n3c = ALL3 ? 65536 : 0; n = n3a + n3b + n3c; break;
 	default: return 2;
 	}
 	struct mc_config cfg = { .property = "C42", .n_items = n, .item = item, .init = init };
